@@ -34,6 +34,7 @@ ASSUMPTIONS = [
     'completely before writing out (C01 proves this for lincomb; NumPy element-wise ufuncs with out aliased to an input)',
     'operator parameters (g, element-valued sigma, bounds, translation, vectors) are not the same objects as x/out',
     'x and out are either the same element or share no array (no partial overlap, no views)',
+    'an operator object keeps no state between calls (outside the translator grammar: fails closed; probed by call histories)',
     'shape information lives in the space: set_zero/ZeroOperator write zeros of the space shape',
 ]
 TRUSTED = [
@@ -1074,6 +1075,124 @@ def replay_blas(seed, tier, index):
     return ok, detail, None
 
 
+# --------------------------------------------------- call histories on ONE operator object
+HISTORIES = (('A', 'A', 'S', 'A'), ('S', 'A', 'A'))
+
+
+def _hist_builders(rng, tier):
+    import odl
+    S = odl.solvers
+    out = list(all_builders(rng, tier))
+    for sp in flat_spaces(rng, 'quick')[1:5]:
+        for g in (None, rnd_el(rng, sp, pos=True)):
+            gn = 'g' if g is not None else 'nog'
+            out.append(('ccklce-' + gn, S.proximal_convex_conj_kl_cross_entropy(sp, lam=rng.choice(DY), g=g)(rng.choice(DY)),
+                        (lambda sp=sp: rnd_el(rng, sp)), sp))
+            out.append(('F:KL-' + gn, S.KullbackLeibler(sp, prior=g).proximal(rng.choice(DY)),
+                        (lambda sp=sp: rnd_el(rng, sp, pos=True)), sp))
+            out.append(('F:KLconj-' + gn, S.KullbackLeibler(sp, prior=g).convex_conj.proximal(rng.choice(DY)),
+                        (lambda sp=sp: rnd_el(rng, sp)), sp))
+    sp2 = odl.ProductSpace(odl.ProductSpace(odl.rn(3), 2), 2)
+    for e in (1, 2, np.inf):
+        out.append(('nuclear-%s' % e, S.NuclearNorm(sp2, singular_vector_exp=e).proximal(rng.choice(DY)),
+                    (lambda: rnd_el(rng, sp2)), sp2))
+    return out
+
+
+def history_ops(seed, tier):
+    """[(key, description, thunk)].  Four independent builds of the same operator list (same seed): two objects receive
+    call histories (A = P(y, out=y), S = P(x, out=z)) with a DIFFERENT input at every call, the results are compared
+    with the out-of-place value of objects that are never called in place (one of them fresh at the last step)."""
+    import random
+    builds = [_hist_builders(random.Random('C10-hist-%d' % seed), tier) for _ in range(4)]
+    rin = random.Random('C10-hist-in-%d' % seed)
+    out = []
+    for i, (nm, P, mk, sp) in enumerate(builds[0]):
+        insts = [b[i][1] for b in builds]
+        key = 'history:' + (nm if nm != 'tree' else 'tree-' + type(P).__name__)
+        out.append((key, '%s on %r' % (nm, sp),
+                    (lambda insts=insts, mk=mk, sp=sp, sd=rin.randrange(2 ** 30): eval_history(insts, mk, sp, sd))))
+    return out
+
+
+def eval_history(insts, mk, sp, sd):
+    rtol, atol = _tols(sp)
+    rtol, atol = max(rtol, 1e-9), max(atol, 1e-11)
+    ref_op, fresh = insts[2], insts[3]
+    why = []
+    nhist = 0
+    for inst, hist in zip(insts[:2], HISTORIES):
+        for step, kind_ in enumerate(hist):
+            x = sp.element(mk())
+            # a different input at every call: shift by the step number when the maker repeats itself
+            x = x + (0.25 * (step + 1 + 3 * nhist)) * sp.one() if step else x
+            want = raw(ref_op(x.copy()))
+            if not all(np.isfinite(w).all() for w in want):
+                continue
+            if kind_ == 'A':
+                y = x.copy()
+                inst(y, out=y)
+                got = raw(y)
+            else:
+                z = junk_like(inst.range)
+                x2 = x.copy()
+                inst(x2, out=z)
+                got = raw(z)
+                if any((u != v).any() for u, v in zip(raw(x2), raw(x))):
+                    why.append('history %s step %d: x modified by the non-aliased call' % ('-'.join(hist), step))
+            d = _dev(got, want, rtol, atol)
+            if d:
+                why.append('history %s step %d (%s): differs from the out-of-place value: %s'
+                           % ('-'.join(hist), step, 'P(y,out=y)' if kind_ == 'A' else 'P(x,out=z)', d))
+            if step == len(hist) - 1 and nhist == 0:
+                d2 = _dev(raw(fresh(x.copy())), want, rtol, atol)
+                if d2:
+                    why.append('out-of-place value of a used object differs from a fresh object: %s' % d2)
+        nhist += 1
+    return (not why), '; '.join(why[:3]) or None
+
+
+def replay_history(seed, tier, index):
+    key, desc, thunk = history_ops(seed, tier)[index]
+    ok, detail = thunk()
+    return ok, detail, None
+
+
+def _probe_family(fam, seed, tier):
+    """generic (key, desc, thunk) families -> Probes"""
+    ops, rname, what = {'history': (history_ops, 'replay_history',
+                                    'call histories on one operator object (aliased/separate calls with different inputs) '
+                                    'equal the out-of-place value of an unused object: '),
+                        'blas': (blas_ops, 'replay_blas',
+                                 'BLAS size regime: P(x), P(y,out=y), P(x,out=z) equal the value computed without the BLAS '
+                                 'regime (and the NumPy closed form): ')}[fam]
+    out = []
+    for idx, (key, desc, thunk) in enumerate(ops(seed, tier)):
+        try:
+            ok, note = thunk()
+        except Exception as e:
+            ok, note = False, 'raised %r' % (e,)
+        rp = ("import sys\nsys.path.insert(0, %r)\nfrom harness import c10\n"
+              "ok, observed, expected = c10.%s(%d, %r, %d)\n" % (C.VERIF, rname, seed, tier, idx))
+        out.append(C.Probe(ok, key, what + desc, rp, note))
+    return out
+
+
+def search(rng, broken):
+    """Called by the driver when a proof / the translator / the correspondence broke and no probe has an input yet:
+    call histories first (state kept across calls is invisible to single-call oracles), then BLAS sizes, then the
+    single-call oracle on more inputs."""
+    seed = rng.randrange(2 ** 30)
+    for fam in ('history', 'blas'):
+        for p in _probe_family(fam, seed, 'thorough'):
+            if not p.ok:
+                return p
+    for p in probes(rng, 'thorough'):
+        if not p.ok and p.key != 'reify-unmodelled':
+            return p
+    return None
+
+
 class _Unalias(object):
     """prox factory wrapper: the returned operator never sees x is out"""
 
@@ -1232,15 +1351,8 @@ def probes(rng, tier):
         rp = ("import sys\nsys.path.insert(0, %r)\nfrom harness import c10\n"
               "ok, observed, expected = c10.replay_probe(%d, %r, %d)\n" % (C.VERIF, seed, tier, idx))
         out.append(C.Probe(ok, key, 'P(y, out=y) and P(x, out=z) equal P(x), x untouched: %s' % desc, rp, note))
-    for idx, (key, desc, thunk) in enumerate(blas_ops(seed, tier)):
-        try:
-            ok, note = thunk()
-        except Exception as e:
-            ok, note = False, 'raised %r' % (e,)
-        rp = ("import sys\nsys.path.insert(0, %r)\nfrom harness import c10\n"
-              "ok, observed, expected = c10.replay_blas(%d, %r, %d)\n" % (C.VERIF, seed, tier, idx))
-        out.append(C.Probe(ok, key, 'BLAS size regime: P(x), P(y,out=y), P(x,out=z) equal the value computed without the BLAS '
-                                    'regime (and the NumPy closed form): %s' % desc, rp, note))
+    out.extend(_probe_family('history', seed, tier))
+    out.extend(_probe_family('blas', seed, tier))
     for idx, (key, what, run) in enumerate(solver_runs(seed, tier)):
         try:
             ok, a, b = replay_solver(seed, tier, idx)
